@@ -241,6 +241,28 @@ def oracle_label(case: Any, obs: Any) -> Optional[str]:
     return None
 
 
+def oracle_signature(case: Any, obs: Any) -> Optional[str]:
+    """format_signature of def f(a=<value>, *, k=<value>): the signature is rendered (not dropped), and its elements and
+    attributes are exactly those of the same signature with a harmless text inside the value: the characters of a default
+    value -- str or bytes, bare or inside a container / call -- appear as text."""
+    kind, payload = case[1][2], case[1][3]
+    got, base = obs
+    if base[0] != 1:
+        return None
+    if got[0] != 1:
+        if '\xa0' in payload and kind in ('str', 'dictkey', 'nested'):
+            return None      # known: NO-BREAK SPACE makes the re-parse path fail (C10-nbsp-reparse)
+        return 'the signature with the default value %s is dropped: %r' % (case[1][0], got[1])
+    ge, ga, _ = stan_names(got[1])
+    be, ba, _ = stan_names(base[1])
+    if sorted(ge) != sorted(be) or sorted(ga) != sorted(ba):
+        extra_e = sorted((collections.Counter(ge) - collections.Counter(be)).elements())
+        extra_a = sorted((collections.Counter(ga) - collections.Counter(ba)).elements())
+        return 'the default value %s became markup in the signature: extra elements %s attributes %s (all: %s)' % (
+            case[1][0], extra_e, extra_a, sorted(ge))
+    return None
+
+
 def oracle_starttag(case: Any, obs: Any) -> Optional[str]:
     """starttag(...): closing the tag gives well-formed XML whose only elements are the tag itself and the empty
     <span id> anchors of additional ids, and whose attribute names are (lower-cased) keyword names or
@@ -594,7 +616,41 @@ class Check(PropertyCheck):
                 t = ''.join(ch for ch in t if not (0xD800 <= ord(ch) < 0xE000))
                 items.append([0, t, []] if self.rng.random() < 0.6 else [1, t, self.rng.choice([[], ['c1'], ['a', 'b']])])
             out.append([15, items])
-        return front + out
+        return self.signature_cases() + front + out
+
+    SIG_KINDS = ['bytes', 'str', 'list', 'call', 'dictkey', 'tuple', 'nested']
+
+    @staticmethod
+    def sig_expr(kind: str, p: str) -> str:
+        b = repr(p.encode('utf-8', 'replace'))
+        if kind == 'bytes':
+            return b
+        if kind == 'str':
+            return repr(p)
+        if kind == 'list':
+            return '[%s, 1.5]' % b
+        if kind == 'call':
+            return 'bytes(%s)' % b
+        if kind == 'dictkey':
+            return '{%s: %s}' % (b, repr(p))
+        if kind == 'tuple':
+            return '(%s,)' % b
+        return 'f(x=[%s], y=%s)' % (repr(p), b)
+
+    def signature_cases(self) -> List[Any]:
+        """default values of every constant kind that can hold text, as the signature shows them (format_signature)"""
+        out = []
+        corpus = ['<script>alert(2)</script>', '<img src="x" onerror="alert(1)"/>', '<zzq/>', '<zzq onzz="1">x</zzq>', '<br/>', '<b>x</b>',
+                  '<p>', 'a&b', '&lt;', ']]>', '--> <zzq/>', '"', "'", '\x01<zzq/>', '\xe9<zzq/>', '\n<zzq/>']
+        for p in corpus:
+            for kind in self.SIG_KINDS:
+                out.append([16, [self.sig_expr(kind, p), self.sig_expr(kind, BENIGN), kind, p]])
+        n = 120 if self.tier == 'quick' else 4000
+        for _ in range(n):
+            p = ''.join(ch for ch in self.adv(4) if not (0xD800 <= ord(ch) < 0xE000))
+            kind = self.rng.choice(self.SIG_KINDS)
+            out.append([16, [self.sig_expr(kind, p), self.sig_expr(kind, BENIGN), kind, p]])
+        return out
 
     # raw XML: serialise random trees with varying lexical forms, then corrupt some
     def raw_xml(self, depth: int) -> str:
@@ -889,6 +945,11 @@ class Check(PropertyCheck):
                 if msg:
                     self.viol(out, 'oracle', msg, c, observed=o)
                 self.count('node2stan_%s' % o[0])
+            elif fn == 16:
+                msg = oracle_signature(c, o)
+                if msg:
+                    self.viol(out, 'oracle', msg, c, observed=o)
+                self.count('signature_%s_%s' % (c[1][2], 'ok' if o[0][0] == 1 else 'dropped'))
             elif fn == 15:
                 msg = oracle_label(c, o)
                 if msg:
